@@ -182,7 +182,7 @@ class SweepMixin(object):
             self.ev["c15_classified_mailbox"] += len(new_mb)
             got = Counter(_rec_key(r) for r in new_mb)
             if got != exp_mb:
-                self.flag({"C15"}, "usage records of expired mailboxes differ from the facts", st,
+                self.flag({"C15"} | self._only_started_differs(got, exp_mb), "usage records of expired mailboxes differ from the facts", st,
                           {"got": sorted(got.elements(), key=repr), "expected": sorted(exp_mb.elements(), key=repr)})
         exp_np = Counter()
         known = True
@@ -202,8 +202,14 @@ class SweepMixin(object):
             self.ev["c15_classified_nameplate"] += len(new_np)
             got = Counter(_rec_key(r) for r in new_np)
             if got != exp_np:
-                self.flag({"C15"}, "usage records of expired nameplates differ from the facts", st,
+                self.flag({"C15"} | self._only_started_differs(got, exp_np), "usage records of expired nameplates differ from the facts", st,
                           {"got": sorted(got.elements(), key=repr), "expected": sorted(exp_np.elements(), key=repr)})
+        # C16: every start time written by the sweep is a multiple of the blur interval
+        if self.blur:
+            for r in new_mb + new_np:
+                self.ev["c16_blur_pruned_row"] += 1
+                if r["started"] is None or r["started"] % self.blur != 0:
+                    self.flag({"C16"}, "usage timestamp written by a sweep is not blurred", st, {"row": r, "blur": self.blur})
         # status row
         self.ev["c15_status_row"] += 1
         cur = list(st.uafter["current"].values())
@@ -216,6 +222,12 @@ class SweepMixin(object):
                     or c["rebooted"] != world.rebooted:
                 self.flag({"C15"}, "status row does not report the subscribed connections", st,
                           {"row": c, "subscribed": subs, "now": now, "rebooted": world.rebooted})
+
+    def _only_started_differs(self, got, exp):
+        if not self.blur:
+            return set()
+        drop = lambda c: Counter((k[0],) + tuple(k[2:]) for k in c.elements())
+        return {"C16"} if drop(got) == drop(exp) else set()
 
     # ------------------------------------------------------------------
     def check_sweep_counts(self, world, st=None):
